@@ -14,7 +14,11 @@ import numpy as np
 from ..core import Violation, feqv, short
 
 RUNS = {"quick": 10000, "thorough": 400000}
-SELFCHECK = {"quick": 32, "thorough": 64}
+SELFCHECK = {"quick": 64, "thorough": 256}
+# the fresh-interpreter lane of the determinism self-check runs with asserts
+# compiled out (python -O): containers.py and transform.py use no assert, so
+# the vectors' behaviour - and every event log - must be the same there
+FRESH_OPTIMIZE = True
 CHUNK = 250
 LEVEL = "exploration"
 RULE = ("each run = seeded sequence of 1-40 operations over a pool of <=4 "
